@@ -1,8 +1,8 @@
-import XjsModel.Proofs.RsUnfold
+import XjsModel.Proofs.RaUnfold
 /-
   Round trip, part 3: the Pratt invariant by induction on the tree.
 -/
-namespace Xjs.RS
+namespace Xjs.RA
 open Xjs
 
 variable {cfg : PCfg}
@@ -44,33 +44,34 @@ theorem eval_of_main (s : SE) (ih : Main cfg s) (q : Nat) (st : PS) (rest : List
     exact hq
 
 /-- explicit (or printer-made) parentheses around an expression -/
-theorem group_case (hc : BaseCfg cfg) (s : SE) (hw : s.wf = true) (ih : Main cfg s) :
-    ∀ (p : Nat) (st : PS) (rest : List Token), rest ≠ [] → st.toks = (lpT :: s.toks ++ [rpT]) ++ rest →
+theorem group_case' (hc : BaseCfg cfg) (lp rp : Token) (hlp : lp.type = .lparen) (hrp : rp.type = .rparen) (s : SE)
+    (hw : s.wf = true) (ih : Main cfg s) :
+    ∀ (p : Nat) (st : PS) (rest : List Token), rest ≠ [] → st.toks = (lp :: s.toks ++ [rp]) ++ rest →
       parseExpressionI cfg [] p st =
-        parseRemaining cfg (.group lpT s.tree rpT) p (nextK ((lpT :: s.toks ++ [rpT]).length - 1) st) := by
+        parseRemaining cfg (.group lp s.tree rp) p (nextK ((lp :: s.toks ++ [rp]).length - 1) st) := by
   intro p st rest hr ht
   have hne := toks_ne_nil s
   obtain ⟨a, as, has⟩ := List.exists_cons_of_ne_nil hne
-  have ht1 : st.toks = lpT :: a :: (as ++ rpT :: rest) := by rw [ht, has]; simp
-  have hcur : st.cur = lpT := cur_of_toks ht1
-  have hn : st.next.toks = s.toks ++ (rpT :: rest) := by rw [next_toks_cons ht1, has]; simp
+  have ht1 : st.toks = lp :: a :: (as ++ rp :: rest) := by rw [ht, has]; simp
+  have hcur : st.cur = lp := cur_of_toks ht1
+  have hn : st.next.toks = s.toks ++ (rp :: rest) := by rw [next_toks_cons ht1, has]; simp
   have hfit : s.fits LOWEST := fits_lowest s hw
-  have hstop1 : stops cfg s.rbl (rpT :: rest) := by
-    right; show precOf cfg .rparen ≤ s.rbl
-    rw [precOf_rparen hc]
+  have hstop1 : stops cfg s.rbl (rp :: rest) := by
+    apply stops_prec; show precOf cfg rp.type ≤ s.rbl
+    rw [hrp, precOf_rparen hc]
     exact rbl_ge_one s hw
-  have hstop2 : stops cfg LOWEST (rpT :: rest) := by
-    right; show precOf cfg .rparen ≤ LOWEST
-    rw [precOf_rparen hc]; decide
-  have e1 := eval_of_main s ih LOWEST st.next (rpT :: rest) (by simp) hn hfit hstop1 hstop2
-  obtain ⟨last, hl, _⟩ := toks_after s.toks hne (rpT :: rest) st.next hn
-  have hpeek : (nextK (s.toks.length - 1) st.next).peek = rpT := by
+  have hstop2 : stops cfg LOWEST (rp :: rest) := by
+    apply stops_prec; show precOf cfg rp.type ≤ LOWEST
+    rw [hrp, precOf_rparen hc]; decide
+  have e1 := eval_of_main s ih LOWEST st.next (rp :: rest) (by simp) hn hfit hstop1 hstop2
+  obtain ⟨last, hl, _⟩ := toks_after s.toks hne (rp :: rest) st.next hn
+  have hpeek : (nextK (s.toks.length - 1) st.next).peek = rp := by
     cases rest with
     | nil => exact absurd rfl hr
     | cons t r => exact peek_of_toks hl
   have hexp : expectToken .rparen (nextK (s.toks.length - 1) st.next) = (true, (nextK (s.toks.length - 1) st.next).next) := by
-    unfold expectToken; rw [hpeek]; rfl
-  rw [unfold_expr, prefix_group hc st (by rw [hcur]; rfl), e1]
+    unfold expectToken; rw [hpeek, hrp]; rfl
+  rw [unfold_expr, prefix_group hc st (by rw [hcur]; exact hlp), e1]
   simp only [Option.bind_eq_bind, Option.bind_some, hexp, if_true]
   rw [next_cur, hpeek, hcur]
   congr 1
@@ -79,6 +80,12 @@ theorem group_case (hc : BaseCfg cfg) (s : SE) (hw : s.wf = true) (ih : Main cfg
   show nextK (s.toks.length + 1) st = _
   congr 1
   simp
+
+theorem group_case (hc : BaseCfg cfg) (s : SE) (hw : s.wf = true) (ih : Main cfg s) :
+    ∀ (p : Nat) (st : PS) (rest : List Token), rest ≠ [] → st.toks = (lpT :: s.toks ++ [rpT]) ++ rest →
+      parseExpressionI cfg [] p st =
+        parseRemaining cfg (.group lpT s.tree rpT) p (nextK ((lpT :: s.toks ++ [rpT]).length - 1) st) :=
+  group_case' hc lpT rpT rfl rfl s hw ih
 
 /-- a sub-expression in operand position: parenthesised by the printer (`b`) or not -/
 theorem wrapped (hc : BaseCfg cfg) (s : SE) (hw : s.wf = true) (ih : Main cfg s) (b : Bool) :
@@ -135,9 +142,9 @@ theorem loop_cons (hc : BaseCfg cfg) (e : SE) (es : SEList) (hw : e.wf = true) (
   have hstopE : ∀ q, 1 ≤ q → stops cfg q (es.ctoks ++ endT :: rest) := by
     intro q hq
     cases es with
-    | nil => right; exact Nat.le_trans hp1 hq
+    | nil => exact stops_prec (Nat.le_trans hp1 hq)
     | cons e2 es2 =>
-      right
+      apply stops_prec
       show precOf cfg TokType.comma ≤ q
       rw [precOf_comma hc]; exact hq
   have e1 := eval_of_main e ihe LOWEST st.next.next (es.ctoks ++ endT :: rest) (by simp) hn (fits_lowest e hw)
@@ -178,9 +185,9 @@ theorem list_cons (hc : BaseCfg cfg) (e : SE) (es : SEList) (hw : e.wf = true) (
   have hstopE : ∀ q, 1 ≤ q → stops cfg q (es.ctoks ++ endT :: rest) := by
     intro q hq
     cases es with
-    | nil => right; exact Nat.le_trans hp1 hq
+    | nil => exact stops_prec (Nat.le_trans hp1 hq)
     | cons e2 es2 =>
-      right
+      apply stops_prec
       show precOf cfg TokType.comma ≤ q
       rw [precOf_comma hc]; exact hq
   have e1 := eval_of_main e ihe LOWEST st.next (es.ctoks ++ endT :: rest) (by simp) hn (fits_lowest e hw)
@@ -244,4 +251,4 @@ theorem params_rt (ps : List Token) (hps : ps.all isIdentTok = true) (st : PS) (
     have e2 : nextK ((cparamToks ps).length + 1) st.next = nextK (1 + ((cparamToks ps).length + 1)) st := by rw [nextK_add 1]; rfl
     rw [e1, e2]; congr 1; simp; omega
 
-end Xjs.RS
+end Xjs.RA
